@@ -544,9 +544,25 @@ def run_family(task):
         if len(sol):
             cx.res["nontrivial"].append("%s|%s|%g" % (solver, sorted(task["dev"].items(), key=str), t))
         judge_indomain(cx, solver, cfg_show, sol, {}, pts=pts if len(sol) == len(pts) else None)
+        if solver in ORIGIN_FAMILIES:
+            # the centre/axis r = 0 lies inside the domain of these problems (it is in the shocked / uniformly collapsing
+            # region, where the documented state is finite) and a grid starting at 0 is what the shipped examples use;
+            # added after the seeded change S2-C20-3 (0 * inf at exactly r == 0)
+            try:
+                sol0 = quiet_call(s, np.array([0.0, float(pts[0])]), t)
+                cx.res["evals"] += 1
+                cx.count("origin_probes")
+                judge_indomain(cx, solver, cfg_show, sol0[:1], {"point": "r=0"})
+            except Exception as ex:
+                cx.dg.add("exc0", type(ex).__name__)
+                if not loud(ex):
+                    cx.viol(solver, cfg_show, "indomain:exception:" + type(ex).__name__, {"point": "r=0"}, detail={"message": str(ex)[:200], "t": t})
         if cx.res["sample"] is None:
             cx.res["sample"] = {"family": solver, "cfg": cfg_show, "t": t, "n_points": int(len(pts))}
     return cx.done()
+
+
+ORIGIN_FAMILIES = {"Noh", "Noh2", "Noh2Cog", "BBNoh"}
 
 
 def run_xfamily(task):
